@@ -5,17 +5,19 @@ import OxiddModel.Mtbdd.F64
 # Interpretation of the extracted `F64` constructions on bit patterns (C10, C01)
 
 `Mtbdd/F64.lean` models an `F64` by its bit pattern and every arithmetic result as
-`norm (a ∘ b)`.  `Row.interp` is the function a constructing row denotes; for a `normalised` row
+`norm (a ∘ b)`, where `∘` is the IEEE-754 operation of the exact binary64 model `Num/Ieee.lean`
+on the decoded operands (no Lean `Float`).  `Row.interp` is the function a constructing row denotes; for a `normalised` row
 over `self.0 ∘ rhs.0` it is, definitionally, the model's `F64.add/sub/mul/div`.
 -/
 namespace OxiddModel.Generated.Fx
-open OxiddModel.Mtbdd
+open OxiddModel.Mtbdd OxiddModel.Num
 
-def BinOp.float : BinOp → Float → Float → Float
-  | .add, x, y => x + y
-  | .sub, x, y => x - y
-  | .mul, x, y => x * y
-  | .div, x, y => x / y
+/-- the `f64` operator of the source, in the exact binary64 model -/
+def BinOp.float : BinOp → Ieee.V → Ieee.V → Ieee.V
+  | .add, x, y => Ieee.add x y
+  | .sub, x, y => Ieee.sub x y
+  | .mul, x, y => Ieee.mul x y
+  | .div, x, y => Ieee.div x y
 
 def BinOp.model : BinOp → UInt64 → UInt64 → UInt64
   | .add => F64.add
@@ -34,8 +36,8 @@ def BinOp.ofName : String → Option BinOp
 /-- the bit pattern an arithmetic row produces from the operands' bit patterns -/
 def Row.interp (r : Row) (a b : UInt64) : Option UInt64 :=
   match r.arg, r.kind with
-  | .binop op, .normalised => some (F64.norm (op.float (Float.ofBits a) (Float.ofBits b)))
-  | .binop op, .raw => some (op.float (Float.ofBits a) (Float.ofBits b)).toBits
+  | .binop op, .normalised => some (F64.norm (op.float (F64.dec a) (F64.dec b)))
+  | .binop op, .raw => some (F64.enc (op.float (F64.dec a) (F64.dec b)))
   | _, _ => none
 
 /-- a normalised arithmetic row is the model's operation, for all operands -/
